@@ -45,19 +45,25 @@ Fixpoint skip_line (s : string) : string :=
   end.
 Fixpoint skip_block (s : string) : option string :=
   match s with
-  | String "*" (String "/" s') => Some s'
-  | String _ s' => skip_block s'
+  | String c s' =>
+      match s' with
+      | String d s'' => if Ascii.eqb c "*" && Ascii.eqb d "/" then Some s'' else skip_block s'
+      | EmptyString => None
+      end
   | EmptyString => None
   end.
 
 (* string body up to the closing quote, backslash escapes kept raw; no newline inside *)
 Fixpoint str_body (s : string) : option (string * string) :=
   match s with
-  | String "\" (String c s') =>
-      match str_body s' with Some (a, b) => Some (String "\" (String c a), b) | None => None end
-  | String """" s' => Some (EmptyString, s')
   | String c s' =>
-      if Nat.eqb (nat_of_ascii c) 10 then None
+      if Ascii.eqb c "\" then
+        match s' with
+        | String d s'' => match str_body s'' with Some (a, b) => Some (String c (String d a), b) | None => None end
+        | EmptyString => None
+        end
+      else if Ascii.eqb c """" then Some (EmptyString, s')
+      else if Nat.eqb (nat_of_ascii c) 10 then None
       else match str_body s' with Some (a, b) => Some (String c a, b) | None => None end
   | EmptyString => None
   end.
@@ -81,26 +87,29 @@ Definition take_exp (s : string) : option (string * string) :=
 (* returns (is_float, lexeme, rest) *)
 Definition take_number (s : string) : option (bool * string * string) :=
   let '(ip, r1) := span is_digit s in
+  let no_dot :=
+    match ip with
+    | EmptyString => None
+    | _ => match take_exp r1 with
+           | Some (ex, r4) => Some (true, ip ++ ex, r4)
+           | None => Some (false, ip, r1)
+           end
+    end%string in
   match r1 with
-  | String "." r2 =>
-      let '(fp, r3) := span is_digit r2 in
-      match ip, fp with
-      | EmptyString, EmptyString => None
-      | _, _ =>
-          match take_exp r3 with
-          | Some (ex, r4) => Some (true, ip ++ "." ++ fp ++ ex, r4)
-          | None => Some (true, ip ++ "." ++ fp, r3)
-          end
-      end
-  | _ =>
-      match ip with
-      | EmptyString => None
-      | _ => match take_exp r1 with
-             | Some (ex, r4) => Some (true, ip ++ ex, r4)
-             | None => Some (false, ip, r1)
-             end
-      end
-  end%string.
+  | String c r2 =>
+      if Ascii.eqb c "." then
+        let '(fp, r3) := span is_digit r2 in
+        match ip, fp with
+        | EmptyString, EmptyString => None
+        | _, _ =>
+            match take_exp r3 with
+            | Some (ex, r4) => Some (true, ip ++ "." ++ fp ++ ex, r4)
+            | None => Some (true, ip ++ "." ++ fp, r3)
+            end
+        end%string
+      else no_dot
+  | EmptyString => no_dot
+  end.
 
 Definition number_token (neg : bool) (sign : string) (n : bool * string * string) : token * string :=
   let '(isf, lx, rest) := n in
@@ -118,9 +127,11 @@ Fixpoint lex_fuel (fuel : nat) (s : string) : option (list token) :=
           if is_space c then lex_fuel f s'
           else if Ascii.eqb c "/" then
             match s' with
-            | String "/" s2 => lex_fuel f (skip_line s2)
-            | String "*" s2 => match skip_block s2 with Some s3 => lex_fuel f s3 | None => None end
-            | _ => None
+            | String d s2 =>
+                if Ascii.eqb d "/" then lex_fuel f (skip_line s2)
+                else if Ascii.eqb d "*" then match skip_block s2 with Some s3 => lex_fuel f s3 | None => None end
+                else None
+            | EmptyString => None
             end
           else if is_alpha c then
             let '(w, rest) := span is_alnum s in
